@@ -1,7 +1,7 @@
 \* design check (thorough): all reliance combinations x connect-version mode
 CONSTANTS
   RunModes = {0, 1}
-  CaseSets = {4, 5, 6, 8}
+  CaseSets = {4, 5, 8}
   MaxSuites = 1
   SNames = {4}
   SModes = {0, 1}
@@ -12,7 +12,7 @@ CONSTANTS
   Flags = {0, 1, 2, 3, 4, 5, 6, 7, 8, 9, 10, 11, 12, 13, 14, 15}
   Cvms = {0, 1, 2}
   TestIdx = {1, 4}
-  TestLens = {1, 2}
+  TestLens = {2}
   SNames2 = {}
   SModes2 = {}
   RelPs2 = {}
